@@ -15,7 +15,8 @@ deviate from Python (defect D9), which `Props/C05.lean` proves on concrete progr
 * `resReads e`   — variables the residual of `e` reads (a walrus leaves its target behind).
 * `writes e`     — all walrus targets in `e`.
 * `sib l r`      — `r` may follow `l` as operands of one node: if `r` lifts anything, then the residual of
-                   `l` has no call and reads nothing that `r` assigns.
+                   `l` has no call — or `r` makes no call at all, so that hoisting it is unobservable —
+                   and the residual of `l` reads nothing that `r` assigns.
 * a chained comparison `l o1 m o2 r` additionally needs `m` free of calls and lifted constructs (the real
   builder evaluates `m` twice) and `sib m r` (the second evaluation of `m` happens after the hoisted part
   of `r`). -/
@@ -58,7 +59,7 @@ def writes : Expr → List Var
 
 def disjoint (a b : List Var) : Bool := a.all fun x => !b.contains x
 
-def sib (l r : Expr) : Bool := !lifts r || (!resCalls l && disjoint (resReads l) (writes r))
+def sib (l r : Expr) : Bool := !lifts r || ((!resCalls l || !anyCall r) && disjoint (resReads l) (writes r))
 
 /-- hoist-safe expressions -/
 def hsE : Expr → Bool
